@@ -698,6 +698,23 @@ MUTANTS = [
         """        my_constructed = true;
         return std::move(*(my_return_storage.begin()));""",
         """        return std::move(*(my_return_storage.begin()));""")]),
+    dict(name='c18-seed4-large-object-rollback-with-invalid-backref', prop='C18', clause='D2', edits=[('src/tbbmalloc/large_objects.cpp',
+        """        if (backRefIdx.isInvalid())
+            return nullptr;
+
+        // unalignedSize is set in getLargeBlock
+        lmb = backend.getLargeBlock(allocationSize);""",
+        """        // unalignedSize is set in getLargeBlock
+        if (!backRefIdx.isInvalid())
+            lmb = backend.getLargeBlock(allocationSize);""")]),
+    dict(name='c18-startup-block-backref-not-checked', prop='C18', clause='D2', edits=[('src/tbbmalloc/frontend.cpp',
+        """    BackRefIdx backRefIdx = BackRefIdx::newBackRef(/*largeObj=*/false);
+    if (backRefIdx.isInvalid()) return nullptr;
+
+    StartupBlock *block""",
+        """    BackRefIdx backRefIdx = BackRefIdx::newBackRef(/*largeObj=*/false);
+
+    StartupBlock *block""")]),
     dict(name='c01-seed3-run-and-wait-handle-epilogue-on-exception-only', prop='C01', clause='D9', edits=[('include/oneapi/tbb/task_group.h',
         """            execute_and_wait(*acs::release(h), context(), m_wait_vertex.get_context(), context());
         }).on_completion([&] {""",
@@ -1592,6 +1609,22 @@ BENIGN = [
 
     template <typename Type>""")]),
     dict(name='c03-b-final-sum-range-flag-renamed', prop='C03', edits=[('re', 'include/oneapi/tbb/parallel_scan.h', r'\bm_range_constructed\b', 'm_has_range')]),
+    dict(name='c18-b-large-object-backref-check-after-the-block', prop='C18', edits=[('src/tbbmalloc/large_objects.cpp',
+        """        if (backRefIdx.isInvalid())
+            return nullptr;
+
+        // unalignedSize is set in getLargeBlock
+        lmb = backend.getLargeBlock(allocationSize);
+        if (!lmb) {
+            removeBackRef(backRefIdx);""",
+        """        if (backRefIdx.isInvalid())
+            return nullptr;
+        const bool haveRef = !backRefIdx.isInvalid();
+
+        // unalignedSize is set in getLargeBlock
+        lmb = backend.getLargeBlock(allocationSize);
+        if (!lmb) {
+            if (haveRef) removeBackRef(backRefIdx);""")]),
     dict(name='c01-b-group-wait-epilogue-in-a-named-lambda', prop='C01', edits=[('include/oneapi/tbb/task_group.h',
         """        try_call([&] {
             d1::wait(m_wait_vertex.get_context(), context());
